@@ -1,0 +1,10 @@
+// Copyright 2018 GRAIL, Inc. All rights reserved.
+// Use of this source code is governed by the Apache 2.0
+// license that can be found in the LICENSE file.
+
+//go:build !verif
+// +build !verif
+
+package exec
+
+func vtrace(ev string, args ...interface{}) {}
